@@ -115,6 +115,14 @@ Section RefsInstance.
     rewrite app_nil_r in Hr.
     apply (in_refs_dict r (p :: ps)) in Hr. destruct Hr as [k [d [H1 H2]]]. eapply H; eauto.
   Qed.
+  Lemma R_ntobj ks props req :
+    (forall k d, In (k, d) props -> G ks d) -> NoDup req -> G ks (render (ntobj_sk props req)).
+  Proof.
+    intros H _ r Hr. rewrite refs_render in Hr. unfold ntobj_sk in Hr. simpl in Hr.
+    destruct props as [|p ps]; simpl in Hr; [contradiction|].
+    rewrite app_nil_r in Hr.
+    apply (in_refs_dict r (p :: ps)) in Hr. destruct Hr as [k [d [H1 H2]]]. eapply H; eauto.
+  Qed.
   Lemma R_default ks s d : G ks (render s) -> G ks (render (set_default s d)).
   Proof.
     intros H r Hr. apply H. rewrite refs_render in *. destruct d; exact Hr.
@@ -144,7 +152,7 @@ Theorem refs_closed_seq E cfg fuel ts st ds st' :
 Proof.
   intros Hn Hb Hc.
   eapply (build_seq_inv E cfg (refs_ok cfg.(c_prefix))); eauto using R_mono, R_ty, R_any, R_arr, R_dict, R_tuple,
-    R_union, R_ref, R_obj, R_default, R_defs, R_schema.
+    R_union, R_ref, R_obj, R_ntobj, R_default, R_defs, R_schema.
 Qed.
 
 Theorem refs_closed_build E cfg fuel wd uri t st d st' :
@@ -154,7 +162,7 @@ Theorem refs_closed_build E cfg fuel wd uri t st d st' :
 Proof.
   intros Hn Hb Hc.
   eapply (build_inv E cfg (refs_ok cfg.(c_prefix))); eauto using R_mono, R_ty, R_any, R_arr, R_dict, R_tuple,
-    R_union, R_ref, R_obj, R_default, R_defs, R_schema.
+    R_union, R_ref, R_obj, R_ntobj, R_default, R_defs, R_schema.
 Qed.
 
 (* without all_refs nothing is registered and no reference is emitted *)
@@ -291,6 +299,14 @@ Proof.
   { destruct req; [reflexivity|]. apply str_nodup_NoDup. exact Hn. }
   rewrite Hp, Hr. reflexivity.
 Qed.
+Lemma M_ntobj ks props req :
+  (forall k d, In (k, d) props -> Gm ks d) -> NoDup req -> Gm ks (render (ntobj_sk props req)).
+Proof.
+  intros H Hn. unfold Gm. rewrite meta_render. unfold ntobj_sk. simpl.
+  assert (Hp: ometa_dict (match props with [] => None | _ :: _ => Some props end) = true).
+  { destruct props as [|p ps]; [reflexivity|]. unfold ometa_dict. apply forallb_forall. intros [k d] Hin. eapply H; eauto. }
+  rewrite Hp, (str_nodup_NoDup req Hn). reflexivity.
+Qed.
 Lemma M_default ks s d : Gm ks (render s) -> Gm ks (render (set_default s d)).
 Proof. unfold Gm. rewrite !meta_render. destruct d; auto. Qed.
 Lemma M_schema ks s u : Gm ks (render s) -> Gm ks (render (set_schema s u)).
@@ -315,7 +331,7 @@ Theorem meta_seq E cfg fuel ts st ds st' :
 Proof.
   intros Hn Hb Hc.
   destruct (build_seq_inv E cfg Gm M_mono M_ty M_any M_arr M_dict M_tuple M_union
-                          (fun ks c _ => M_ref ks _) M_obj M_default M_defs M_schema Hn fuel ts st ds st' Hb Hc) as (A & B & _).
+                          (fun ks c _ => M_ref ks _) M_obj M_ntobj M_default M_defs M_schema Hn fuel ts st ds st' Hb Hc) as (A & B & _).
   split; assumption.
 Qed.
 
@@ -326,7 +342,7 @@ Theorem meta_build E cfg fuel wd uri t st d st' :
 Proof.
   intros Hn Hb Hc.
   destruct (build_inv E cfg Gm M_mono M_ty M_any M_arr M_dict M_tuple M_union
-                      (fun ks c _ => M_ref ks _) M_obj M_default M_defs M_schema Hn fuel wd uri t st d st' Hb Hc) as (A & B & _).
+                      (fun ks c _ => M_ref ks _) M_obj M_ntobj M_default M_defs M_schema Hn fuel wd uri t st d st' Hb Hc) as (A & B & _).
   split; assumption.
 Qed.
 
@@ -346,6 +362,11 @@ Lemma classes_of_union ts : classes_of (TUnion ts) = flat_map classes_of ts.
 Proof. simpl. induction ts as [|x r IH]; simpl; [reflexivity|rewrite IH; reflexivity]. Qed.
 Lemma ty_ok_tuple ts : ty_ok (TTuple ts) = forallb ty_ok ts.
 Proof. simpl. induction ts as [|x r IH]; simpl; [reflexivity|rewrite IH; reflexivity]. Qed.
+Lemma classes_of_named a n ts d : classes_of (TNamed a n ts d) = flat_map classes_of ts.
+Proof. simpl. induction ts as [|x r IH]; simpl; [reflexivity|rewrite IH; reflexivity]. Qed.
+Lemma ty_ok_named a n ts d :
+  ty_ok (TNamed a n ts d) = str_nodup n && Nat.eqb (List.length n) (List.length ts) && forallb ty_ok ts.
+Proof. simpl. f_equal; try reflexivity. all: induction ts as [|x r IH]; simpl; [reflexivity|rewrite IH; reflexivity]. Qed.
 Lemma ty_ok_union ts : ty_ok (TUnion ts) = match ts with [] => false | _ => forallb ty_ok ts end.
 Proof. destruct ts as [|t0 tr]; [reflexivity|]. simpl. f_equal; try reflexivity. all: induction tr as [|x r IH]; simpl; [reflexivity|rewrite IH; reflexivity]. Qed.
 
@@ -364,12 +385,12 @@ Section Total.
   Lemma map_st_total rec fuel ts :
     Forall (fun t => forall st, ty_ready fuel t -> exists s st', rec t st = SOk (s, st')) ts ->
     (forall t, In t ts -> ty_ready fuel t) ->
-    forall st, exists ss st', map_st rec ts st = SOk (ss, st').
+    forall ds st, exists ss st', map_st rec ts ds st = SOk (ss, st').
   Proof.
-    induction 1 as [|t r Ht Hr IH]; intros Hall st; simpl.
+    induction 1 as [|t r Ht Hr IH]; intros Hall ds st; simpl.
     - eauto.
     - destruct (Ht st (Hall t (or_introl eq_refl))) as [s [st1 E1]]. rewrite E1.
-      destruct (IH (fun t' Hin => Hall t' (or_intror Hin)) st1) as [ss [st2 E2]]. rewrite E2. eauto.
+      destruct (IH (fun t' Hin => Hall t' (or_intror Hin)) (tl ds) st1) as [ss [st2 E2]]. rewrite E2. eauto.
   Qed.
 
   Lemma fields_total rec fuel : total_at rec fuel ->
@@ -401,11 +422,14 @@ Section Total.
     - rewrite sf_set. destruct (IHt st Hr) as [s [st1 E1]]. rewrite E1. eauto.
     - rewrite sf_dict. destruct (IHt st Hr) as [s [st1 E1]]. rewrite E1. eauto.
     - rewrite sf_tuple. destruct Hr as [Hok Hcl]. rewrite ty_ok_tuple in Hok. rewrite classes_of_tuple in Hcl.
-      destruct (map_st_total _ fuel ts H (ready_members fuel ts Hok Hcl) st) as [ss [st1 E1]]. rewrite E1. eauto.
+      destruct (map_st_total _ fuel ts H (ready_members fuel ts Hok Hcl) [] st) as [ss [st1 E1]]. rewrite E1. eauto.
     - rewrite sf_union. destruct Hr as [Hok Hcl]. rewrite ty_ok_union in Hok. rewrite classes_of_union in Hcl.
       destruct ts as [|t0 tr]; [discriminate|].
-      destruct (map_st_total _ fuel (t0 :: tr) H (ready_members fuel (t0 :: tr) Hok Hcl) st) as [ss [st1 E1]]. rewrite E1. eauto.
+      destruct (map_st_total _ fuel (t0 :: tr) H (ready_members fuel (t0 :: tr) Hok Hcl) [] st) as [ss [st1 E1]]. rewrite E1. eauto.
     - apply Hclass. exact Hr.
+    - rewrite sf_named. destruct Hr as [Hok Hcl]. rewrite ty_ok_named in Hok. rewrite classes_of_named in Hcl.
+      apply andb_true_iff in Hok. destruct Hok as [Hg Hok]. rewrite Hg.
+      destruct (map_st_total _ fuel ts H (ready_members fuel ts Hok Hcl) ds st) as [ss [st1 E1]]. rewrite E1. eauto.
   Qed.
 
   Theorem total_fuel : forall fuel, total_at (schema_fuel E cfg fuel) fuel.
